@@ -48,6 +48,21 @@ Clauses(e) ==
     [] e.kind = "uniform"     ->
          IF \E k \in 1..Len(e.cases) : IsErrAxis(UniformExp(e.cases)[k]) THEN {<<"precondition", 0>>}
          ELSE PartDiff(UniformExp(e.cases), e.obs)
+    [] e.kind = "phist" ->
+         LET PartE(o) == [k \in 1..Len(e.sc.nodes) |->
+                            Axis(e.sc.lims[o.lim].min[k], e.sc.lims[o.lim].max[k], e.sc.nodes[k])]
+             Bad(s, j) ==
+               IF s.err # "" THEN {<<"raised", j>>}
+               ELSE IF s.a = "Q"
+                 THEN (IF AnsSame(s.q, Ref(PartE(e.objs[s.i]), s.q), s.obs) THEN {} ELSE {<<s.q, j>>})
+               ELSE IF s.a = "SWEEP"
+                 THEN UNION {{<<q, j>> : q \in {q \in Queries :
+                                  LET r == Ref(PartE(e.objs[i]), q)
+                                  \* obs_first (first pass of the sweep) is logged only where it differs from the second pass
+                                  IN  ~AnsSame(q, r, s.obs[i][q]) \/ (s.obs_first # <<>> /\ ~AnsSame(q, r, s.obs_first[i][q]))}}
+                             : i \in 1..Len(e.objs)}
+               ELSE {}
+         IN  UNION {Bad(e.steps[j], j) : j \in 1..Len(e.steps)}
     [] OTHER -> {<<"unknown-kind", 0>>}
 
 TraceInit == l = 1
